@@ -7,6 +7,8 @@ mod drivers;
 mod epoll;
 mod explore;
 mod seqhooks;
+mod tracked;
+mod world;
 
 use std::io::Write;
 
